@@ -503,7 +503,26 @@ impl Evaluator {
                         let last_k: String = chars[chars.len() - k..].iter().collect();
                         let drop_k: String = chars[k..].iter().collect();
                         if !is_ascii_str(&s) {
-                            // bytes or characters: not documented
+                            // bytes or characters: not documented. Where both units say the same
+                            // - N at least the number of bytes: the whole string (the documented
+                            // examples of head / tail / take with a large N) - the answer stands;
+                            // for tail between the two lengths it is the whole string (characters)
+                            // or the last N bytes (bytes), nothing else
+                            if n > s.len() {
+                                return val(RVal::Str(s));
+                            }
+                            if f == "tail" && n > chars.len() {
+                                // counted in characters: the whole string; counted in bytes: the
+                                // last N bytes, or what is left after N bytes
+                                let mut alts = vec![Some(RVal::Str(s.clone()))];
+                                if s.is_char_boundary(s.len() - n) {
+                                    alts.push(Some(RVal::Str(s[s.len() - n..].to_string())));
+                                }
+                                if s.is_char_boundary(n) {
+                                    alts.push(Some(RVal::Str(s[n..].to_string())));
+                                }
+                                return OneOf(alts);
+                            }
                             return U;
                         }
                         match f {
@@ -512,7 +531,11 @@ impl Evaluator {
                             _ => {
                                 // tail: "the end of the first argument": the last N characters or the
                                 // rest after N characters - the documentation fits both
-                                if n >= chars.len() {
+                                if n > chars.len() {
+                                    // (tail "test-123" 20) = "test-123" is a documented example
+                                    val(RVal::Str(s.clone()))
+                                } else if n == chars.len() {
+                                    // the last N characters: everything; the rest after N: nothing
                                     OneOf(vec![Some(RVal::Str(s.clone())), Some(RVal::Str(String::new()))])
                                 } else if last_k == drop_k {
                                     val(RVal::Str(last_k))
